@@ -79,6 +79,25 @@ def sample(states, k, seed):
     return [st for i, st in enumerate(keyed) if (i + seed) % k == 0]
 
 
+def suffix_cases(n, seed):
+    """NFAs in which the subset {a, b} is reachable while other states are already spelled "a;b" and "a;b#k": the name
+    of the subset collides, and so may the replacement name (pool "suffix": q1 = a, q2 = b, q3 = "a;b", others "a;b#k")."""
+    rnd = random.Random(seed)
+    cases = []
+    for _ in range(n):
+        start = rnd.choice(["q0", "q4", "q5", "q6", "q3"])
+        calls = [["add_start_state", start], ["add_transition", start, "a", "q3"], ["add_transition", start, "b", "q1"],
+                 ["add_transition", start, "b", "q2"]]
+        for _ in range(rnd.randint(1, 5)):
+            calls.append(["add_transition", "q%d" % rnd.randrange(7), rnd.choice("ab"), "q%d" % rnd.randrange(7)])
+        for _ in range(rnd.randint(1, 3)):
+            calls.append(["add_final_state", "q%d" % rnd.randrange(7)])
+        if rnd.random() < 0.5:
+            rnd.shuffle(calls)
+        cases.append(dict(kind="nfa", calls=calls, spool="suffix", ypool="ab", perm=None, family="directed-suffix-names"))
+    return cases
+
+
 def with_ctor(cases):
     """every 5th case is also run on an object built by the class constructor"""
     out = []
@@ -115,6 +134,7 @@ def generate(tier, seed, work, stats):
     # operands whose names are what the library's own collision handling produces, and symbols with colliding hashes
     for c in random_cases(1500 if tier == "quick" else 15000, seed + 21, nq=6, nt=9):
         cases.append(dict(c, spool="suffix", family="random-suffix-names"))
+    cases += suffix_cases(1500 if tier == "quick" else 15000, seed + 23)
     for c in random_cases(500 if tier == "quick" else 5000, seed + 22, nq=4, nt=7):
         cases.append(dict(c, ypool="neg", family="random-negative-symbols"))
     return with_ctor(cases)
